@@ -32,8 +32,10 @@ def behaviours(n, seed, ck, max_comments=4, max_steps=14, tag="comments"):
     return [p for p in r.prints if isinstance(p, dict) and "comments" in p]
 
 
-def observe_claims(cms, hist, root, view):
+def observe_claims(cms, hist, root, view, texts=None):
     own, parent = comments.chains(hist, root)
+    cn = comments.canon(texts) if texts else {}
+    used = set()
     acts = [a for a in hist if a["a"] != "finish"]
     out = []
     for c in cms:
@@ -48,22 +50,35 @@ def observe_claims(cms, hist, root, view):
         rec = {"id": c["id"], "where": c["where"], "found": False, "linekind": "", "key": "", "chain": "", "valsame": True,
                "nextkind": "", "nextkey": ""}
         rec.update(want)
+        cid = cn.get(c["id"], c["id"])
+        # every occurrence of the (possibly repeated) text is a candidate; an occurrence serves one claimed comment;
+        # the first occurrence at the predicted place wins, otherwise the first unused one is reported
+        cands = []
         for li, ln in enumerate(view):
-            if c["id"] in ln["ids"]:
-                rec.update(found=True, linekind=ln["kind"], key=ln["key"], chain=ln["chain"])
-                if c["where"] == "above":
-                    for nx in view[li + 1:]:
-                        if nx["kind"] not in ("comment", "blank"):
-                            rec.update(nextkind=nx["kind"], nextkey=nx["key"], chain=nx["chain"])
-                            break
-                break
+            for pi, x in enumerate(ln["ids"]):
+                if x == cid and (li, pi) not in used:
+                    o = {"found": True, "linekind": ln["kind"], "key": ln["key"], "chain": ln["chain"], "at": (li, pi)}
+                    if c["where"] == "above":
+                        for nx in view[li + 1:]:
+                            if nx["kind"] not in ("comment", "blank", "cont"):
+                                o.update(nextkind=nx["kind"], nextkey=nx["key"], chain=nx["chain"])
+                                break
+                    cands.append(o)
+        good = [o for o in cands if o["chain"] == rec["wantchain"] and
+                ((c["where"] == "eol" and o["linekind"] == "attr" and o["key"] == rec["wantkey"]) or
+                 (c["where"] == "above" and o["linekind"] == "comment" and o.get("nextkey") == rec["wantkey"]))]
+        pick = (good or cands or [None])[0]
+        if pick:
+            used.add(pick.pop("at"))
+            rec.update(pick)
         out.append(rec)
     return out
 
 
 def make_record(tid, text, src_texts, claims_fn, loads_c, loads_p, dumps, itn=None):
     itn = tracecheck.Interner()
-    rec = {"tid": tid, "what": "comments", "src": sorted(src_texts.keys()), "claimed": [], "out": [],
+    cn = comments.canon(src_texts)
+    rec = {"tid": tid, "what": "comments", "src": sorted(cn[c] for c in src_texts), "claimed": [], "out": [],
            "with": {"t": "none"}, "without": {"t": "none"}, "accepted": False}
     dc = loads_c(text)
     dp = loads_p(text)
@@ -99,7 +114,7 @@ def run(tier):
         dumps = impl.dumper(newlinechar=nl)
         ck.count()
         try:
-            rec, out_c = make_record("gen:%d" % j, text, texts, lambda view: observe_claims(cms, hist, root, view),
+            rec, out_c = make_record("gen:%d" % j, text, texts, lambda view: observe_claims(cms, hist, root, view, texts),
                                      loads_c, loads_p, dumps)
         except Exception as ex:  # noqa: BLE001
             ck.violation("C14|raised|%s" % type(ex).__name__, "load/dump with comments raised %s: %s" % (type(ex).__name__, str(ex)[:120]),
@@ -108,6 +123,14 @@ def run(tier):
         records.append(rec)
         meta[rec["tid"]] = (text, out_c, cms)
         ck.nontrivial([hist[:-1], cms])
+    # fixed probe: a # comment and a multi-line C comment that end up joined on one keyword line
+    probe = 'STYLE\n  # first\n  /* second\n     still second */\n  LINECAP ROUND\nEND\n'
+    try:
+        outp = impl.dumper()(loads_c(probe))
+        loads_p(outp)
+    except Exception as ex:  # noqa: BLE001
+        ck.violation("C14|joined-multiline-after-hash", "a multi-line /* */ comment joined behind a # comment on a keyword line makes the output unparseable (%s)" % type(ex).__name__,
+                     {"text": probe})
     # corpus files with their own comments: source comments = what the lexer callbacks captured
     files = corpus.sample(40, seed) if quick else corpus.files()
     pc = impl.Parser(include_comments=True, expand_includes=True)
